@@ -82,6 +82,7 @@ molA 1
 {atomsA}
 [ bonds ]
 {bondsA}
+{bondsExtra}
 [ angles ]
 {anglesA}
 [ dihedrals ]
@@ -120,12 +121,16 @@ def _render(atoms, dih_entries, direction, counts, opls, use_define, bond_rev):
     angle_lines = ["%s 2 120 %s" % (" ".join(bt(x) for x in ang), "ang_k" if use_define else "45")]
     # a macro may be defined more than once: the latest definition before its use counts (as for the GROMACS preprocessor)
     defines = {False: "", True: "#define ang_k 77.0\n", "redefined": "#define ang_k 55.5\n#define  ang_k\t77.0\n"}[use_define]
+    # a macro may also stand for the whole parameter list including the function type (GROMOS style: `3 4 gb_21`)
+    bonds_extra = "3 4 gb_x" if use_define else ""
+    if use_define:
+        defines += "#define gb_x 1 0.153 7150000.0\n"
     atomsA = "\n".join("%d %s 1 RES a%d %d 0.0" % (i + 1, atoms[i], i + 1, i + 1) for i in range(4))
     order = "1 2 3 4" if direction == 0 else "4 3 2 1"
     mols = "\n".join("%s %d" % (n, c) for n, c in counts)
     text = TOP.format(comb=1, genpairs="no", atomtypes="\n".join(at_lines), nonbond="", bondtypes="\n".join(bond_lines),
                       constrainttypes="%s %s 2 0.1111" % (bt(b01[0]), bt(b01[1])), angletypes="\n".join(angle_lines), dihtypes="\n".join(dih_lines), defines=defines, atomsA=atomsA,
-                      bondsA="1 2 1", anglesA="1 2 3 2", dihsA=order + " 9", molecules=mols)
+                      bondsA="1 2 1", bondsExtra=bonds_extra, anglesA="1 2 3 2", dihsA=order + " 9", molecules=mols)
     if opls:
         text = "#define _FF_OPLS\n" + text
     return text
@@ -177,6 +182,10 @@ def _run_bonded(sx, atoms, ents, direction, counts, opls, use_define, bond_rev):
         if mol.mol_name == "molA":
             b = mol.molecule.interactions["bonds"][0]
             sx.claim(b.parameters == ["1", "0.47", "1250"], "bond type found forwards or backwards", lambda: repr(b))
+            if use_define:
+                b2 = [x for x in mol.molecule.interactions["bonds"] if tuple(x.atoms) == (2, 3)]
+                sx.claim(len(b2) == 1 and b2[0].parameters == ["1", "0.153", "7150000.0"],
+                         "a macro standing for the whole parameter list (function type included) is substituted", lambda: repr(b2))
             a = mol.molecule.interactions["angles"][0]
             exp = ["2", "120", "77.0" if use_define else "45"]
             if use_define:
